@@ -163,6 +163,8 @@ package jsonschema
 //@   modifies a.evaluatedIndexes, a.evaluatedIndexes.entries
 //@   ensures annsOwned(a)
 //@   ensures a.evaluatedIndexes == old(a.evaluatedIndexes) || fresh(a.evaluatedIndexes)
+//@   ensures[C07] set: a.evaluatedIndexes != nil && has(a.evaluatedIndexes, i) && a.evaluatedIndexes[i]
+//@   ensures[C07] keep: forall k int {has(a.evaluatedIndexes, k)} :: old(a.evaluatedIndexes != nil && has(a.evaluatedIndexes, k) && a.evaluatedIndexes[k]) ==> has(a.evaluatedIndexes, k) && a.evaluatedIndexes[k]
 
 //@ contract (*annotations).noteEndIndex(a, end)
 //@   requires new(a) && a.endIndex >= 0
@@ -244,6 +246,7 @@ package jsonschema
 //@   requires stackOK: forall i int {stk0[i]} :: 0 <= i && i < len(stk0) ==> inRS(rs, stk0[i])
 //@   requires annsOK: callerAnns != nil ==> annsOwned(callerAnns)
 //@   modifies st.stack, st.stack.elems, callerAnns.allItems, callerAnns.endIndex, callerAnns.evaluatedIndexes, callerAnns.allProperties, callerAnns.evaluatedProperties, callerAnns.evaluatedIndexes.entries, callerAnns.evaluatedProperties.entries
+//@   ensures[C07] vfn: (result == nil) == vok(st, len(stk0), instance, schema)
 //@   ensures[C06,C10] stacklen: len(st.stack) == len(stk0)
 //@   ensures[C06,C10] stackelems: newOrNil(st.stack) && (forall i int {st.stack[i]} :: 0 <= i && i < len(stk0) ==> st.stack[i] == old(stk0[i]))
 //@   ensures stackarr: isnil(st.stack) || st.stack.arr == stk0.arr || fresh(st.stack)
@@ -256,6 +259,7 @@ package jsonschema
 //@   atline[C01,C12] "// numbers:" cp2 uses samejv: okConst(schema, instance)
 //@   atline[C01] "// strings:" cp3 uses samejv,shaped: okNum(schema, instance)
 //@   atline[C01] "// $dynamicRef:" cp4 uses samejv,shaped: okStr(schema, instance)
+//@   atline[C07] "validation-01#section-6.4" contains uses stacklen,anns,cont: schema.Contains != nil ==> new(anns) && newOrNil(anns.evaluatedIndexes) && (forall j int {rvindex(instance, j)} :: 0 <= j && j < rvlen(instance) && vok(st, len(stk0) + 1, rvindex(instance, j), schema.Contains) ==> anns.evaluatedIndexes != nil && has(anns.evaluatedIndexes, j) && anns.evaluatedIndexes[j])
 //@   atline[C01] "// objects" cp5 uses samejv,shaped,p_items: okItems(schema, instance)
 //@   atline[C01] "if callerAnns != nil {" cp6 uses samejv,shaped,p_props: okProps(schema, instance)
 //@   atreturn[C01,C12] accepted uses samejv: result == nil && applies ==> jv(instance) == jv(inst0) && okType(schema, instance) && okConst(schema, instance) && okNum(schema, instance) && okStr(schema, instance) && okItems(schema, instance) && okProps(schema, instance)
@@ -302,6 +306,8 @@ package jsonschema
 //@     invariant[C12] noneq: isold(schema) && isold(schema.Enum) && !ok && (forall j int {schema.Enum[j]} :: 0 <= j && j <= $idx ==> !eqv(rvof(schema.Enum[j]), instance))
 //@     exit[C12] found: isold(schema) && isold(schema.Enum) && ($idx < len(schema.Enum) ==> 0 <= $idx && eqv(rvof(schema.Enum[$idx]), instance))
 //@     exit[C12] none: isold(schema) && isold(schema.Enum) && ($idx >= len(schema.Enum) ==> !ok && (forall j int {schema.Enum[j]} :: 0 <= j && j < len(schema.Enum) ==> !eqv(rvof(schema.Enum[j]), instance)))
+//@   loop "range instance.Len()"
+//@     invariant[C07] cont uses stacklen,anns: new(anns) && newOrNil(anns.evaluatedIndexes) && (forall j int {rvindex(instance, j)} :: 0 <= j && j < $i && vok(st, len(stk0) + 1, rvindex(instance, j), schema.Contains) ==> anns.evaluatedIndexes != nil && has(anns.evaluatedIndexes, j) && anns.evaluatedIndexes[j])
 //@   loop "range schema.AnyOf"
 //@     exit[C01,C07] visitall: $idx >= len(schema.AnyOf)
 //@   loop "range schema.OneOf"
